@@ -50,8 +50,16 @@ func VerifC07Outage() {
 		verifEndpointUp(true)
 		verifReconnect(d)
 	}
+	// the endpoint may stop reading while still connected: the connection writer then blocks inside a
+	// socket write, and the outage surfaces as a write error for the very line it holds
+	stalled := verifBool("endpoint-stops-reading-before-outage")
+	if stalled {
+		for k := 0; k < verifNumConns(); k++ {
+			verifEndpointStall(k, true)
+		}
+	}
 	verifHandOff(d, &lines, verifChoice("n-connected", 3))
-	if verifBool("flush-before-outage") {
+	if !stalled && verifBool("flush-before-outage") {
 		verifFlushConns()
 	}
 	// outage: the peer closes the connection (checkEOF sees EOF), the endpoint refuses new connections
